@@ -87,6 +87,32 @@ func label(t *rapid.T, inner bool) (string, bool) {
 func relabel(t *rapid.T, ms []*ref.Node) (mapped bool) {
 	used := map[string]bool{}
 	assign := map[string]string{} // old name -> new name (trees of a list share taxa)
+	if rapid.IntRange(0, 5).Draw(t, "indexlabels") == 2 {
+		// the tips are named 0..n-1 (or 1..n) in an order unrelated to the tree: the very strings a
+		// translate table uses as keys
+		var old []string
+		seen := map[string]bool{}
+		for _, m := range ms {
+			for _, n := range m.Tips() {
+				if !seen[n] {
+					seen[n] = true
+					old = append(old, n)
+				}
+			}
+		}
+		first := rapid.IntRange(0, 1).Draw(t, "indexfrom")
+		nums := make([]int, len(old))
+		for i := range nums {
+			nums[i] = first + i
+		}
+		if len(nums) > 1 {
+			nums = rapid.Permutation(nums).Draw(t, "indexperm")
+		}
+		for i, n := range old {
+			assign[n] = strconv.Itoa(nums[i])
+			used[assign[n]] = true
+		}
+	}
 	for _, m := range ms {
 		m.Walk(func(x, p *ref.Node) {
 			if x.Name == "" {
@@ -506,7 +532,7 @@ func layoutTexts(parts []string, l docs.Layout) string {
 func TestC13Formats(t *testing.T) {
 	h.Run(t, h.Spec[Case]{
 		Property: "C13", Name: "formats", Quick: 16000, Thorough: 640000,
-		Rule: "lists of 1..5 trees (2..9 tips, 5% up to 30/120) with labels legal in all three formats (graphic non-blank runes without ()[],:;=<>&'\", Nexus keywords mapped to k_, numeric tip labels, unique names over tips and inner nodes), lengths/supports/p-values/inner names present or not; chains newick->nexus(+-translate)->newick, Tree.Nexus(), newick->phyloxml->newick, nexus->phyloxml->nexus through gotree's writers and readers compared with the original model (shape, child order, names, lengths, supports); multi-Newick streams in free layout (line breaks after commas, blank and blank-only lines, trailing blanks, CRLF, no final newline) with an optional syntactically broken member: ids consecutive in file order, every tree equal to its record, error record then nothing; first-tree reader vs first record of the multi-tree reader for the four formats on documents written independently or by gotree. Non-trivial = >= 2 trees or an inner name/support, and a layout feature / translate table / format other than plain Newick",
+		Rule: "lists of 1..5 trees (2..9 tips, 5% up to 30/120) with labels legal in all three formats (graphic non-blank runes without ()[],:;=<>&'\", Nexus keywords mapped to k_, numeric tip labels, in one list in six the tips are named 0..n-1 or 1..n in an order unrelated to the tree, unique names over tips and inner nodes), lengths/supports/p-values/inner names present or not; chains newick->nexus(+-translate)->newick, Tree.Nexus(), newick->phyloxml->newick, nexus->phyloxml->nexus through gotree's writers and readers compared with the original model (shape, child order, names, lengths, supports); multi-Newick streams in free layout (line breaks after commas, blank and blank-only lines, trailing blanks, CRLF, no final newline) with an optional syntactically broken member: ids consecutive in file order, every tree equal to its record, error record then nothing; first-tree reader vs first record of the multi-tree reader for the four formats on documents written independently or by gotree. Non-trivial = >= 2 trees or an inner name/support, and a layout feature / translate table / format other than plain Newick",
 		Gen: genCase, Check: check,
 		Classify: func(c Case) (bool, []string) {
 			l := []string{"chain:" + c.Chain}
